@@ -140,9 +140,12 @@ def c11_extra(ctx: Ctx):
     units = ["mV", "ms**-1", "uA/uF", "mM", "uF/cm2", "mS/cm2", "per_ms", "unitless", "1", "mol per litre", "%", "degC"]
     u1, u2, u3 = rng.choice(units), rng.choice(units), rng.choice(units)
     descs = ["the x", "gate, fast", "100 percent", "a (b) c", "Vm"]
+    # trailing comments, including ones that are empty once '#' and blanks are stripped
+    tcs = ["# mV", "# mV", "", "##", "# #", "###  ", "# ms**-1", "# a remark", "#  #  "]
+    tc1, tc2, tc3 = rng.choice(tcs), rng.choice(tcs), rng.choice(tcs)
     text = (f"states(\"A\", x=ScalarParam({rng.choice(['0.5', '1/3', '2.5e-3'])}, unit=\"{u1}\", description=\"{rng.choice(descs)}\"), "
             f"y=ScalarParam(1, unit=\"{u3}\"))\n"
-            f"parameters(\"A\", a=ScalarParam(0.25, unit=\"{u2}\"))\nexpressions(\"A\")\nw = {es[0]} # mV\ndx_dt = w + {es[1]}\ndy_dt = {es[2]}\n")
+            f"parameters(\"A\", a=ScalarParam(0.25, unit=\"{u2}\"))\nexpressions(\"A\")\nw = {es[0]} {tc1}\ndx_dt = w + {es[1]} {tc2}\ndy_dt = {es[2]}\nexpressions(\"B\")\nobs = x*a {tc3}\nobs2 = obs + y\n")
     return {"text": text}
 
 
